@@ -188,7 +188,7 @@ class Sched:
                           if (t.state == 'sleeping' or (t.state == 'blocked' and t.timed))
                           and t is not self.main]
                 stalls = [a for a in self.actors if a.alive and a.stall_until is not None]
-                if not others and not stalls:
+                if not others and not stalls and not getattr(self.main, 'idle_exempt', False):
                     if self.progress == self.last_progress_seen:
                         self.idle_polls += 1
                     else:
@@ -978,8 +978,17 @@ def _stdout_yield():
     """A parent stdout that is slow (a pipe to a pager, a full terminal buffer): every flush is
     a scheduling point, so anything may happen between two of the parent's writes."""
     env = CURRENT_ENV
-    if env is not None and env.knobs.get('stdout_yields') and env.sched.active \
-            and env.sched.current is env.sched.main:
+    if env is None or not env.sched.active or env.sched.current is not env.sched.main:
+        return
+    if env.knobs.get('stdout_stall'):
+        # the consumer of the parent's stdout is slow: the flush blocks for a while
+        env.sched.probe('stdout_flush_stall')
+        env.sched.main.idle_exempt = True      # (not a poll of the resume loop)
+        try:
+            env.clock.sleep(env.knobs['stdout_stall'])
+        finally:
+            env.sched.main.idle_exempt = False
+    elif env.knobs.get('stdout_yields'):
         env.sched.probe('stdout_flush_yield')
         env.sched.switch_point()
 
